@@ -281,6 +281,8 @@ def _boxes(d, kind, tier):
     extra = [(1.0, 2.0), (0.5, 2.0)] if kind in ("any", "nonneg") else []
     if kind == "any":
         extra.append((-1.0, 0.5))
+    # degenerate box: zero width in the first dimension (the integral is 0)
+    out.append(([0.25] + [0.0] * (d - 1), [0.25] + [1.0] * (d - 1)))
     for e in extra:
         out.append(([e[0]] * d, [e[1]] * d))
         if d >= 2:
